@@ -1,17 +1,17 @@
 from props.common import run_all as run  # noqa: F401
 
-META = {
-    "claimed": True,
-    "title": "Command-line parsing follows the documented option grammar for every argv",
-    "level_text": ("proof: util/getopt.c is modelled state for state (statics, packed-option cursor, searchopt, registration pass of GETOPT_SWITCH) on checked memory; "
-                   "C18_getopt_eq_spec proves, for every well-formed table (with or without a missing-argument label) and every argv of terminated strings, that the model "
-                   "reports exactly the events of a reference parser written from the header comment of getopt.h, in order, with the same final optind; C18_getopt_stops* "
-                   "prove the stopping rules (first operand / lone '-' not consumed, '--' consumed, optind = index of first operand); C18_reset_fresh proves that optreset "
-                   "from ANY state equals a fresh parse; C18_registration_enforces_wf ties wf_table to what getopt_register_opt accepts. Unbounded in argv length and table size. "
-                   "The model is bound to the C by the correspondence run (back-end API with generated tables + compiled GETOPT_SWITCH loops, ASan, 21k argvs quick / 306k thorough, "
-                   "exhaustive up to length 4 over a 12-word alphabet in thorough)."),
-    "level_note": ("Trusted: Coq kernel; hand-written Gallina model of getopt.c bound to the code by differential execution only (no translator module: the file has no tables); "
-                   "the reference parser is our reading of the header comment. Print Assumptions: closed under the global context."),
-    "trusted_base": ["reference grammar parser transcribed from the header comment of util/getopt.h"],
-    "assumptions": ["argv strings are NUL-terminated; registered names are '-x' or '--long' as getopt_register_opt enforces"],
-}
+META = {'claimed': True,
+ 'title': 'Command-line parsing follows the documented option grammar for every argv',
+ 'level_text': 'proof: util/getopt.c is modelled state for state (statics, packed-option cursor, searchopt, registration pass of GETOPT_SWITCH) on checked memory; C18_getopt_eq_spec / '
+               "C18_switch_eq_spec prove, for every table whose names are '-x' or '--long', NUL-free, pairwise distinct and without '=' inside a long name (getopt_register_opt enforces all of this "
+               "except the '=' clause; tables it accepts with '=' in a long name follow first-prefix-match in label order: C18_getopt_eq_coded_spec; every other table aborts in the registration pass "
+               'and that is the only abort), with or without a missing-argument label, and for compiled GETOPT_SWITCH statements in ANY source layout incl. a label on the GETOPT_SWITCH line (the '
+               "macros' indexing pass is modelled: C18_switch_pass_is_registration, C18_switch_layout_independent), and every argv of terminated strings, that the model reports exactly the events of "
+               "a reference parser written from the header comment of getopt.h, in order, with the same final optind; C18_getopt_stops* prove the stopping rules (first operand / lone '-' not "
+               "consumed, '--' consumed, optind = index of first operand); C18_reset_fresh proves that optreset from ANY state equals a fresh parse; C18_registration_enforces_wf ties wf_table to "
+               'what getopt_register_opt accepts. Unbounded in argv length and table size. The model is bound to the C by the correspondence run (back-end API with generated tables + 10 compiled '
+               'GETOPT_SWITCH loops in 7 source layouts, ASan, 22.7k argvs quick / 318k thorough, exhaustive up to length 4 over a 12-word alphabet in thorough).',
+ 'level_note': 'Trusted: Coq kernel; hand-written Gallina model of getopt.c bound to the code by differential execution only (no translator module: the file has no tables); the reference parser is '
+               'our reading of the header comment. Print Assumptions: closed under the global context.',
+ 'trusted_base': ['reference grammar parser transcribed from the header comment of util/getopt.h'],
+ 'assumptions': ["argv strings are NUL-terminated; registered names are '-x' or '--long' as getopt_register_opt enforces"]}
